@@ -374,4 +374,68 @@ example : LoginHistory.setUserLogin demoSetUser = [97, 98] ∧ LoginHistory.getF
 example : ¬ (LoginHistory.Edit.batch demoBatch.tail).touches [97, 98] := by
   simp [LoginHistory.Edit.touches, demoBatch, LoginHistory.touches, LoginHistory.renameSrc, LoginHistory.getF, obfuscate]
 
+/-! ### The handshake gate against the regenerated constants of `hotline/handshake.go`
+
+  `Generated.handshakeVars` (the literal byte arrays `trtp`, `hotl`, `handshakeResponse`),
+  `Generated.handshakeLayout` (the fields of `type handshake struct`, in the order `binary.Read` fills them
+  from the 12 bytes read) and `Generated.handshakeValidExpr` (what `Valid` returns) are re-extracted from
+  /repo on every run.  The theorems below say, for **every** byte string, that the model's gate
+  `handshakeValid` is "bytes 0..3 are `trtp` and bytes 4..7 are `hotl`" with exactly those constants and
+  that layout, and that the reply the model sends is `handshakeResponse`.  A change of a constant, of the
+  field order / widths, or of the conjunction in `Valid` no longer builds. -/
+
+/-- a regenerated byte array as model bytes (`[]` when the extractor did not find a literal: then
+    `generated_handshake_vars_found` fails) -/
+def genBytes (n : String) : Bytes := ((Generated.handshakeVars.lookup n).getD []).map UInt8.ofNat
+
+theorem generated_handshake_vars_found :
+    (Generated.handshakeVars.lookup "trtp").map List.length = some 4 ∧
+    (Generated.handshakeVars.lookup "hotl").map List.length = some 4 ∧
+    (Generated.handshakeVars.lookup "handshakeResponse").map List.length = some 8 ∧
+    (∀ e ∈ Generated.handshakeVars, ∀ x ∈ e.2, x < 256) := by decide
+
+/-- The struct `binary.Read(…, BigEndian, h)` fills: Protocol = bytes 0..3, SubProtocol = bytes 4..7,
+    then two 2-byte fields; 12 bytes in all (= `handshakeSize`, `C02.generated_handshakeSize`). -/
+theorem generated_handshake_layout :
+    Generated.handshakeLayout =
+      [("Protocol", "[4]byte"), ("SubProtocol", "[4]byte"), ("Version", "[2]byte"), ("SubVersion", "[2]byte")] := by decide
+
+/-- `Valid` is the conjunction of the two comparisons and nothing else. -/
+theorem generated_handshake_valid_expr :
+    Generated.handshakeValidExpr = "h.Protocol == trtp && h.SubProtocol == hotl" := by decide
+
+/-- For every byte string: the model's gate is `Protocol == trtp && SubProtocol == hotl` under the layout
+    above, with the regenerated constants. -/
+theorem handshakeValid_generated (p : Bytes) :
+    handshakeValid p = (decide (p.take 4 = genBytes "trtp") && decide ((p.drop 4).take 4 = genBytes "hotl")) := by
+  have h1 : genBytes "trtp" = [0x54, 0x52, 0x54, 0x50] := by decide
+  have h2 : genBytes "hotl" = [0x48, 0x4F, 0x54, 0x4C] := by decide
+  rw [h1, h2]
+  unfold handshakeValid
+  rcases p with _ | ⟨a, _ | ⟨b, _ | ⟨c, _ | ⟨d, _ | ⟨e, _ | ⟨f, _ | ⟨g, _ | ⟨h, r⟩⟩⟩⟩⟩⟩⟩⟩ <;>
+    first | (simp; done) | (apply Bool.eq_iff_iff.mpr; simp [and_assoc])
+
+/-- … so a string passes the gate **iff** its first four bytes are `trtp` and the next four are `hotl`. -/
+theorem handshakeValid_iff_generated (p : Bytes) :
+    handshakeValid p = true ↔ p.take 4 = genBytes "trtp" ∧ (p.drop 4).take 4 = genBytes "hotl" := by
+  rw [handshakeValid_generated]; simp
+
+/-- The 8 bytes the server answers an accepted handshake with are the regenerated `handshakeResponse`,
+    which starts with `trtp` and carries error code 0. -/
+theorem handshakeReply_generated :
+    handshakeReply = genBytes "handshakeResponse" ∧ handshakeReply = genBytes "trtp" ++ [0, 0, 0, 0] := by decide
+
+/-- The client handshake the model's sessions start with is `trtp ++ hotl ++ version ++ sub-version`. -/
+theorem handshakeBytes_generated (ver sub : Nat) :
+    handshakeBytes ver sub = genBytes "trtp" ++ genBytes "hotl" ++ be16 ver ++ be16 sub := by
+  have h1 : genBytes "trtp" = [0x54, 0x52, 0x54, 0x50] := by decide
+  have h2 : genBytes "hotl" = [0x48, 0x4F, 0x54, 0x4C] := by decide
+  rw [h1, h2]; simp [handshakeBytes]
+
+-- non-vacuity: a handshake with a good protocol and a bad sub-protocol (and the converse) is refused;
+-- an all-good one with any version passes
+example : handshakeValid ([0x54, 0x52, 0x54, 0x50] ++ [0x48, 0x4F, 0x54, 0x4D] ++ [0, 1, 0, 2]) = false ∧
+    handshakeValid ([0x54, 0x52, 0x54, 0x51] ++ [0x48, 0x4F, 0x54, 0x4C] ++ [0, 1, 0, 2]) = false ∧
+    handshakeValid (handshakeBytes 7 9) = true := by decide
+
 end Mobius.C04
